@@ -40,7 +40,8 @@ impl Dependencies for Declaration {
             Self::ReturnStatement(return_statement) => return_statement.supplies(),
             Self::IfStatement(if_statement) => if_statement.supplies(),
             Self::WhileLoop(while_loop) => while_loop.supplies(),
-            Self::NumberLoop(number_loop) => number_loop.supplies(),
+            // the counter of a `from` loop lives in the loop's own frame: it is not a name of the enclosing block (the loop subtracts it itself)
+            Self::NumberLoop(_) => vec![],
             Self::Assertion(assertion) => assertion.supplies(),
             Self::Class(class) => class.supplies(),
             Self::Value(value) => value.supplies(),
